@@ -74,7 +74,7 @@ func runC01(c *Ctx) {
 				}
 				if cp.Deref(ic.Call.Args[0]) == errV {
 					if g, ok := ic.Call.Args[1].(*ssa.UnOp); ok {
-						if gl, ok := g.X.(*ssa.Global); ok && gl.Name() == "EOF" {
+						if gl, ok := g.X.(*ssa.Global); ok && N(gl) == "EOF" {
 							notEOF = true
 						}
 					}
@@ -86,7 +86,7 @@ func runC01(c *Ctx) {
 				if b, ok := cond.(*ssa.BinOp); ok && (b.Op == token.NEQ && truth || b.Op == token.EQL && !truth) {
 					if cp.Deref(b.X) == errV {
 						if g, ok := b.Y.(*ssa.UnOp); ok {
-							if gl, ok := g.X.(*ssa.Global); ok && gl.Name() == "EOF" {
+							if gl, ok := g.X.(*ssa.Global); ok && N(gl) == "EOF" {
 								notEOF = true
 							}
 						}
@@ -141,7 +141,7 @@ func runC01(c *Ctx) {
 	if adv == nil || sendBuf == nil {
 		fatalf("anchor=message.advanceToStage/sendBuffer not found")
 	}
-	stageSend, _ := p.Root.Pkg.Scope().Lookup("stageSend").(*types.Const)
+	stageSend, _ := p.Lookup("stageSend").(*types.Const)
 	if stageSend == nil {
 		fatalf("anchor=stageSend constant not found")
 	}
@@ -373,7 +373,7 @@ func runC01(c *Ctx) {
 			if f == nil || side == "" {
 				return sideSel{}, false
 			}
-			ss := sideSel{got: side + "." + f.Name()}
+			ss := sideSel{got: side + "." + N(f)}
 			for _, fct := range facts {
 				if LoadedField(fct.Cond) == isReqF {
 					ss.isReq, ss.known = fct.Truth, true
@@ -475,7 +475,7 @@ func runC01(c *Ctx) {
 		n := 0
 		for _, call := range Calls(fn) {
 			cc := call.Common()
-			if !cc.IsInvoke() || cc.Method.Name() != w.method {
+			if !cc.IsInvoke() || N(cc.Method) != w.method {
 				continue
 			}
 			n++
@@ -531,7 +531,7 @@ func runC01(c *Ctx) {
 			if sc == nil || sc.Signature.Recv() == nil || !isPtrTo(sc.Signature.Recv().Type(), RootPath, "compressionPool") || len(call.Common().Args) == 0 {
 				continue
 			}
-			if sc.Name() == "Name" {
+			if N(sc) == "Name" {
 				continue
 			}
 			n++
